@@ -54,7 +54,8 @@ type Config struct {
 	MaxElif         int
 	BigNumbers      bool // literals >= 256 / >= 65536, long identifiers
 	Vals            []int
-	DriveDeep       bool // stress shape whose depth is only reached under a friendly game state
+	PConst          float64 // probability that a name / literal is written through a constant
+	DriveDeep       bool    // stress shape whose depth is only reached under a friendly game state
 }
 
 type gen struct {
@@ -187,6 +188,7 @@ func DrawConfig(r *rng.R, p Profile, thorough bool) *Config {
 		c.PBigExpr = 0.3
 	}
 	c.MaxElif = 3
+	c.PConst = on01(r, 0.3, 0.4)
 	c.BigNumbers = r.P(0.1)
 	if c.BigNumbers {
 		// var values and literals around the 8- and 16-bit boundaries
@@ -378,9 +380,9 @@ func (g *gen) plainArg() model.Arg {
 	r := g.r
 	switch r.Intn(7) {
 	case 0:
-		return model.Arg{Toks: []string{g.varName()}}
+		return model.Arg{Toks: []string{g.viaConst(g.varName())}}
 	case 1:
-		return model.Arg{Toks: []string{g.flagName()}}
+		return model.Arg{Toks: []string{g.viaConst(g.flagName())}}
 	case 2:
 		return model.Arg{Toks: []string{fmt.Sprint(r.Intn(100))}}
 	case 3:
@@ -480,13 +482,13 @@ func (g *gen) leaf() *model.Leaf {
 		l.Auto = g.autoCmd()
 	case k < 4:
 		l.Kind = model.LFlag
-		l.Name = g.flagName()
+		l.Name = g.viaConst(g.flagName())
 	case k < 5:
 		l.Kind = model.LDefeated
-		l.Name = g.trainerName()
+		l.Name = g.viaConst(g.trainerName())
 	default:
 		l.Kind = model.LVar
-		l.Name = g.varName()
+		l.Name = g.viaConst(g.varName())
 	}
 	switch r.Intn(4) {
 	case 0:
@@ -510,7 +512,7 @@ func (g *gen) leaf() *model.Leaf {
 				// the README's AutoVar example: checkitem(...) == TRUE
 				l.Val = []string{"TRUE", "FALSE"}[r.Intn(2)]
 			case 0:
-				l.Val = g.varName()
+				l.Val = g.viaConst(g.varName())
 			case 1:
 				l.Val = fmt.Sprintf("CONST_%d", r.Intn(3))
 			case 2:
@@ -518,13 +520,13 @@ func (g *gen) leaf() *model.Leaf {
 				l.Val = fmt.Sprintf("0x40%02X", r.Intn(3))
 			case 3:
 				l.Strict = true
-				l.Val = g.lit()
+				l.Val = g.viaConst(g.lit())
 			case 4:
 				l.Val = fmt.Sprintf("0x40%02X", r.Intn(3))
 			case 5:
 				l.Val = fmt.Sprintf("CONST_%d + %d", r.Intn(3), r.Intn(3))
 			default:
-				l.Val = g.lit()
+				l.Val = g.viaConst(g.lit())
 			}
 		}
 	}
@@ -727,7 +729,7 @@ func (g *gen) switchStmt(depth int, ctx bctx) *model.Stmt {
 	if c.AutoVars && len(g.autoCmds) > 0 && r.P(c.PAutoSwitch) {
 		sw.Auto = g.autoCmd()
 	} else {
-		sw.Var = g.varName()
+		sw.Var = g.viaConst(g.varName())
 	}
 	n := r.Range(1, c.MaxCases)
 	if n > c.Dom+3 {
@@ -778,6 +780,7 @@ func (g *gen) switchStmt(depth int, ctx bctx) *model.Stmt {
 			if r.P(0.15) {
 				cs.Value = fmt.Sprintf([]string{"0x%X", "0x%x", "0x%02x"}[r.Intn(3)], v)
 			}
+			cs.Value = g.viaConst(cs.Value)
 		}
 		if !r.P(c.PEmptyCase) {
 			// the last case body is closed by '}', so 'continue' may be its last statement
@@ -799,7 +802,7 @@ func (g *gen) resolveGotos() {
 		if len(targets) == 0 || r.P(g.c.PExternal) {
 			c.Args[0].Toks = []string{fmt.Sprintf("Ext%d", r.Intn(3))}
 		} else if len(g.hot) > 0 && r.P(0.35) {
-			c.Args[0].Toks = []string{g.hot[r.Intn(len(g.hot))]}
+			c.Args[0].Toks = []string{g.viaConst(g.hot[r.Intn(len(g.hot))])}
 		} else if len(g.labels) > 0 && r.P(0.75) {
 			c.Args[0].Toks = []string{g.labels[r.Intn(len(g.labels))]}
 		} else {
@@ -1173,3 +1176,28 @@ func StressFile(r *rng.R, c *Config) *model.File {
 }
 
 var capsPool = []string{"DEFAULT", "CASE", "BREAK", "CONTINUE", "IF", "ELSE", "ELIF", "DO", "WHILE", "SWITCH", "SCRIPT", "TEXT", "RAW", "VAR", "FLAG", "VALUE", "MOVES", "FORMAT", "GLOBAL", "LOCAL", "END", "RETURN", "PORYSWITCH", "CONST", "Default", "Case"}
+
+// viaConst returns tok, or with probability PConst the name of a constant defined as tok
+// (an existing one with that value, a new one, or an alias of an existing one).
+func (g *gen) viaConst(tok string) string {
+	r := g.r
+	if g.c.PConst <= 0 || !r.P(g.c.PConst) {
+		return tok
+	}
+	var same []string
+	for _, c := range g.f.Consts {
+		if len(c.Val) == 1 && c.Val[0] == tok {
+			same = append(same, c.Name)
+		}
+	}
+	if len(same) > 0 && r.P(0.6) {
+		return same[r.Intn(len(same))]
+	}
+	name := fmt.Sprintf("K%d", len(g.f.Consts))
+	def := model.ConstDef{Name: name, Val: []string{tok}}
+	if len(same) > 0 {
+		def.Src = []string{same[r.Intn(len(same))]} // defined from another constant
+	}
+	g.f.Consts = append(g.f.Consts, def)
+	return name
+}
